@@ -62,7 +62,7 @@ pub fn run(prefix: &str) {
         for seed in [1u64, 2] {
             let p = P { seed, size: Size::S };
             let out = (c.run)(&p, &C19Cfg { env_a: &e1, env_b: &e2, storage_seed: seed });
-            let ok = out.restored_differs.is_none() && !out.eq_failed && out.codec_error.is_none();
+            let ok = out.restored_differs.is_none() && !out.eq_failed && out.codec_error.is_none() && out.scenario_panic.is_none();
             if !ok {
                 bad += 1;
             }
@@ -77,6 +77,7 @@ pub fn run(prefix: &str) {
                 out.json_exact,
                 out.env_dependent,
                 match (&out.restored_differs, &out.codec_error, &out.json_note) {
+                    _ if out.scenario_panic.is_some() => format!("SCENARIO PANIC: {:?}", out.scenario_panic),
                     (Some(d), _, _) => format!("restored differs: {d:?}"),
                     (_, Some(e), _) => format!("codec error: {e}"),
                     (_, _, Some(n)) => format!("json: {n}"),
